@@ -28,6 +28,19 @@ CHECKS = {
 
 NOT_APPLICABLE = []
 
+CHECKS['C09'] = (
+    'bounded exploration of real engine runs of nested workflows on minidb '
+    '(3 levels, with-items over sub-workflows, in-process and via the '
+    'message bus): action outcomes and delivery order are solver variables; '
+    'collision cases for undeclared input names',
+    'In every explored run the parent task mirrors the child\'s final state '
+    'and output, the parent continues exactly once per child completion, '
+    'every descendant records root execution and namespace and evaluates '
+    'against the root environment, undeclared input becomes parameters but '
+    'never overrides engine-owned ones, one child per item with ordered '
+    'results.',
+    '§3 C09')
+
 CHECKS['C08'] = (
     'bounded exploration of real engine runs of policy-carrying tasks on '
     'minidb: per-attempt outcomes, policy expression values and the order of '
